@@ -52,7 +52,7 @@ FLOORS = {
     'has:future-chain': 0.004,
     'op:illegal': 0.3,
     'op:segment-ok': 0.1,
-    'perm:all-legal': 0.02,
+    'perm:all-legal': 0.003,
 }
 SHARDS_THOROUGH = 16
 
@@ -190,10 +190,15 @@ def _avoided(exp: interp.Expect) -> bool:
     """Trigger shapes of the recorded findings (not generated by the ``clean`` campaign)."""
     if exp.verdict in ('ambiguous', 'unspec'):
         return True
-    if exp.verdict == 'illegal':
+    if exp.link_fail is None:
+        return False
+    verdict, reason = exp.link_fail
+    if verdict in ('ambiguous', 'unspec'):
+        return True
+    if verdict == 'illegal':
         if 'partial' in exp.tags or 'label-link' in exp.tags:
             return True
-        if 'via-future' in exp.tags and exp.reason in ('second-publisher', 'self-feed', 'trained-publishing'):
+        if 'via-future' in exp.tags and reason in ('second-publisher', 'self-feed', 'trained-publishing'):
             return True
     return False
 
@@ -541,9 +546,9 @@ def check_perm(ctx, spec):
 def campaigns(ctx):
     thorough = ctx.tier == 'thorough'
     return [
-        Campaign('history', history_spec(False), check_history, 2200, 12000),
-        Campaign('clean', history_spec(True), check_history, 2200, 12000),
-        Campaign('perm', perm_spec(thorough), check_perm, 500, 400),
+        Campaign('history', history_spec(False), check_history, 2200, 6000),
+        Campaign('clean', history_spec(True), check_history, 2200, 6000),
+        Campaign('perm', perm_spec(thorough), check_perm, 500, 200),
     ]
 
 
